@@ -1429,3 +1429,63 @@ pub fn decoder_text(g: &mut Gen<'_>) -> (&'static str, String) {
     }
     (name, t)
 }
+
+/// Documents in which ONE kind of thing is counted past 2^16 (and, with a larger `n`, past
+/// 2^18): distinct anchors, aliases to them in reverse order, documents, keys, tagged nodes,
+/// sequence entries of a nested sequence, flow entries.
+pub const COUNT_KINDS: [&str; 8] = ["anchors", "anchors+aliases", "documents", "keys", "tags", "nested-entries", "flow-entries", "anchored-documents"];
+pub fn count_doc(kind: &str, n: usize) -> String {
+    let mut s = String::with_capacity(n * 14 + 64);
+    match kind {
+        "anchors" => {
+            for i in 0..n {
+                s.push_str(&format!("- &a{i} x\n"));
+            }
+            s.push_str("- *a0\n- *a65535\n- *a65536\n");
+            s.push_str(&format!("- *a{}\n--- *a7\n", n - 1));
+        }
+        "anchors+aliases" => {
+            for i in 0..n {
+                s.push_str(&format!("- &a{i} x\n"));
+            }
+            for i in (0..n).rev().step_by(257) {
+                s.push_str(&format!("- *a{i}\n"));
+            }
+        }
+        "documents" => {
+            for _ in 0..n {
+                s.push_str("--- a\n");
+            }
+        }
+        "anchored-documents" => {
+            for i in 0..n {
+                s.push_str(if i % 2 == 0 { "--- &a x\n" } else { "--- [&a y, *a]\n" });
+            }
+        }
+        "keys" => {
+            for i in 0..n {
+                s.push_str(&format!("k{i}: v\n"));
+            }
+        }
+        "tags" => {
+            s.push_str("%TAG !e! tag:e.com,2000:\n---\n");
+            for i in 0..n {
+                s.push_str(&format!("- !e!t{i} v\n"));
+            }
+        }
+        "nested-entries" => {
+            s.push_str("a:\n  b:\n");
+            for _ in 0..n {
+                s.push_str("    - x\n");
+            }
+        }
+        _ => {
+            s.push('[');
+            for _ in 0..n {
+                s.push_str("x, ");
+            }
+            s.push_str("y]\n");
+        }
+    }
+    s
+}
